@@ -5,7 +5,7 @@ ENTRY = {
     "streams": [
         {"name": "sched", "drive": "drive-sched", "model": "drv-sched",
          "reset_ops": ["cfg"],
-         "n_quick": 30000, "seeds_quick": 2, "n_thorough": 400000, "seeds_thorough": 8},
+         "n_quick": 30000, "seeds_quick": 2, "n_thorough": 200000, "seeds_thorough": 8, "search_seeds": 2},
     ],
     "level_text": "Kernel-checked Lean theorems over every beacon-node oracle (each call may fail or answer anything), every configuration, every clock value at which the ticker starts and every finite sequence of clock advances (all missed-tick patterns) and chain-reorg events: no duty (slot,type) is triggered twice and slots are handled in strictly increasing order; every triggered definition is an assignment the beacon node already gave for that slot and duty type to a validator it named as an active cluster validator with that pubkey; every trigger carries not-before = slot start + offset(type) (1/3, 2/3, 2/3, else 0); if the slot's epoch is resolved when the slot is handled and the beacon node's answers for an epoch do not change between retries, every assignment of that slot is triggered with a definition set equal to the beacon node's assignments restricted to active cluster validators. The model is tied to core/scheduler by lock-step differential correspondence with the real Scheduler, the real newSlotTicker under a fake clock and the real delaySlotOffset over a scripted beacon node.",
     "level_note": "Trusted: Lean kernel, the Go correspondence harness and line driver, clockwork fake-clock semantics; Run()'s select loop is replaced by the harness handing each slot of the real ticker to emitCoreSlot+scheduleSlot (hook HandleSlotVerif); goroutine timing of the asynchronous trigger is abstracted (the delay function is injected and records the not-before instant).",
